@@ -48,6 +48,9 @@ func (g *G) Name(min int) string {
 	var b strings.Builder
 	n := g.R.Range(min, 4)
 	for i := 0; i < n; i++ {
+		if !g.Clean && g.R.P(1, 40) {
+			b.WriteString("\\" + g.pick("\n", "\r\n", "\f")) // invalid escape: ends the name
+		}
 		if g.R.P(1, 6) {
 			b.WriteString(g.Escape())
 		} else {
@@ -195,6 +198,7 @@ func (g *G) Comment() string {
 var delims = []string{
 	"!", "#", "$", "%", "&", "*", "+", ",", "-", ".", "/", ":", ";", "<", "=", ">", "?", "@", "^", "`", "|", "~",
 	"~=", "|=", "^=", "$=", "*=", "||", "<!--", "-->", ":", ";", ",", "!", "\\\n", "|||", "||=", "<!-", "--", "->",
+	"-\\\n", "--\\\n", "-\\\r\n", "-\\\f", "@-\\\n", "#-\\\n", "#\\\n", "@\\\n",
 }
 
 // Token returns the text of one component value.
@@ -246,6 +250,10 @@ func (g *G) Token(depth int) string {
 			return g.Ident()
 		}
 		return g.pick(")", "]", "}", "\x00", "\\", "\\\n", "'", `"`, "/*", "url(", "url( a b)", "\"a\nb\"")
+	case 26:
+		// an invalid escape (backslash-newline) or a backslash at the end, right where "would start an
+		// identifier" looks ahead
+		return g.pick("", "-", "--", "@-", "#-", "#", "@", g.digits(1, 2)+"-", g.Number()+"-", "a-", "a") + "\\" + g.pick("\n", "\r\n", "\r", "\f", "\n", "") + g.pick("", "x", " ")
 	case 25:
 		return g.pick("é", "名", "\U0001F600", " ", "�", "\x01", "\x7f")
 	default:
